@@ -4,7 +4,7 @@ EXPLANATION = ('The format_spec fields (alignment, pad, zero-pad flag, width inc
                'format_string, format_numeric_string (layout for arbitrary digit text: independent of which digits), pad_size, format_type for bool / const char* / ST::string / char types / every integer type '
                '(digits for radix 16, 8, 2 at full width; radix 10 at 8 and 16 bits), format_char, and the sequential-vs-&N selection of the real apply_format are compared with a reference renderer written from the property text. '
                'Literal/escape handling of the driver is asserted in C10 (reference scanner).')
-BOUNDS = {'quick': 'width <= 8 (all negative widths included), text/digit strings <= 4 bytes (integers: as many digits as the type needs), precision: any int', 'thorough': 'width <= 16, text <= 6 bytes'}
+BOUNDS = {'quick': 'decimal at 32/64 bits on windows of 2^16 values (int: both ends of the type; long long: the bottom end) under a symbolic spec; width <= 8 (all negative widths included), text/digit strings <= 4 bytes (integers: as many digits as the type needs), precision: any int', 'thorough': 'width <= 16, text <= 6 bytes'}
 OUTSIDE = 'widths above the bound; decimal rendering of 32/64-bit values outside the windows of 2^16 values at the ends of the type, around zero and around +-10^9 / 10^18 (whole domain: no verdict on any back end, see C12); floating point (C13); spec extraction from the format text beyond what C10 parses'
 INTS = [('schar', 8, 1), ('uchar', 8, 0), ('short', 16, 1), ('ushort', 16, 0), ('int', 32, 1), ('uint', 32, 0), ('long', 64, 1), ('ulong', 64, 0), ('llong', 64, 1), ('ullong', 64, 0)]
 import math
